@@ -312,3 +312,27 @@ M("c13_limits_omitted_when_unknown", "C13", "ak/ppobj.py",
   "        if self.any_lines_skipped is True:")
 M("c13_fixed_width_serialised_as_range_start", "C13", "ak/ppobj.py",
   "            fmt_str += f\":{self.min_width}-{self.max_width}\"\n", "            fmt_str += f\":{self.min_width}-{max(self.max_width - 1, self.min_width) if self.max_width < 20 else self.max_width}\"\n")
+
+# ---------------------------------------------------------------- C15
+M("c15_empty_not_in_is_false", "C15", "ak/mtd_sql.py",
+  "                sql = \"0\" if self.op == 'IN' else \"1\"", "                sql = \"0\"")
+M("c15_or_joined_with_and", "C15", "ak/mtd_sql.py", "        result += \" OR \".join(", "        result += \" AND \".join(")
+M("c15_and_joined_with_or", "C15", "ak/mtd_sql.py",
+  "            sql += \" WHERE \" + \" AND \".join(", "            sql += \" WHERE \" + \" OR \".join(")
+M("c15_or_group_without_brackets", "C15", "ak/mtd_sql.py",
+  "        result = \"(\"\n", "        result = \"\" if len(self.operands) == 2 else \"(\"\n")
+M("c15_value_interpolated_for_like", "C15", "ak/mtd_sql.py",
+  "        elif self.op in ('LIKE', 'NOT LIKE'):\n            values_list.append(self.value)\n            sql = self.field_name + sql_clauses[self.op]",
+  "        elif self.op in ('LIKE', 'NOT LIKE'):\n            sql = self.field_name + f\" {self.op} '{self.value}'\"")
+M("c15_neq_none_becomes_is_null", "C15", "ak/mtd_sql.py",
+  "                self.op = 'IS NULL' if self.op == '=' else 'IS NOT NULL'", "                self.op = 'IS NULL'")
+B("c15_conditions_emitted_in_another_order", "C15", "ak/mtd_sql.py",
+  "            args = list(args)\n            args.extend(sorted(kwargs.items()))\n\n        filters =",
+  "            args = sorted(kwargs.items()) + [a for a in args if not hasattr(a, 'operands')] + [a for a in args if hasattr(a, 'operands')]\n\n        filters =")
+M("c15_in_values_deduplicated", "C15", "ak/mtd_sql.py",
+  "                values_list.extend(self.value)\n", "                values_list.extend(dict.fromkeys(self.value))\n")
+M("c15_order_by_ignored_for_scalars", "C15", "ak/mtd_sql.py",
+  "        if order_by_clause is not None:\n            sql += \" ORDER BY \" + order_by_clause",
+  "        if order_by_clause is not None and not as_scalars:\n            sql += \" ORDER BY \" + order_by_clause")
+M("c15_one_or_none_returns_first", "C15", "ak/mtd_sql.py",
+  "        if len(all_records) > 1:\n            raise ValueError", "        if len(all_records) > 2:\n            raise ValueError")
